@@ -69,7 +69,15 @@ F4 == { Case("F4", <<Rule("start", Alt(Cat(A, NT("start")), TAlt(B)))>>),       
         Case("F4", <<Rule("start", Cat(Un("grp", Alt(A, TAlt(B))), Un("star", Alt(NT("start"), C))))>>),
         Case("F4", <<Rule("start", Alt(Cat(NT("y"), A), B)), Rule("y", Alt(Cat(NT("start"), B), TAlt(C)))>>) }  \* mutual recursion
 
-All == F1 \cup F2 \cup F2b \cup F3 \cup F4
+\* ---- F6: no declarations at all, and every declaration kind, in several orders ----
+D6 == << Tok("AA", "str", "x"), Tok("BB", "pat", "[0-9]+"), Tok("CC", "pre", "$ID"),
+         Rule("start", Cat(Cat(TTok("AA"), TTok("BB")), Un("opt", TTok("CC")))),
+         Dir("left", <<HTerm("AA", FALSE), HTerm("y", TRUE), HRule("start", Alt(A, TAlt(B)))>>),
+         Dir("none", <<HEmptyRule("z"), HTerm("BB", FALSE)>>), EmptyRule("z") >>
+Orders6 == { <<1, 2, 3, 4, 5, 6, 7>>, <<7, 6, 5, 4, 3, 2, 1>>, <<4, 1, 5, 2, 6, 3, 7>>, <<5, 6, 4, 7, 1, 2, 3>>, <<4>>, <<1>>, <<5>>, <<6, 1>> }
+F6 == { Case("F6", <<>>) } \cup { Case("F6", [j \in 1..Len(o) |-> D6[o[j]]]) : o \in Orders6 }
+
+All == F1 \cup F2 \cup F2b \cup F3 \cup F4 \cup F6
 ASSUME /\ ndJsonSerialize("gen_specs.ndjson", SetToSeq(All))
        /\ PrintT(<<"GENERATED", Cardinality(All), "F1", Cardinality(F1), "F2", Cardinality(F2) + Cardinality(F2b), "F3", Cardinality(F3), "F4", Cardinality(F4)>>)
 =============================================================================
